@@ -329,6 +329,14 @@ def check_knob_dispatch(chk, f, knobs):
     return n
 
 
+def _ancestors(node, parent):
+    out = []
+    while node in parent:
+        node = parent[node]
+        out.append(node)
+    return out
+
+
 def run(chk):
     prog = chk.prog
     chk.explanation = (
@@ -380,12 +388,60 @@ def run(chk):
         e = inl_g.expand(order[1])
         if isinstance(e, ast.UnaryOp):
             e = e.operand
-        facts_ = {A.text(x) for x in ast.walk(e) if isinstance(x, ast.Attribute)}
-        masked = isinstance(e, ast.BinOp) and isinstance(e.op, ast.Mult) and bool({"S._data", "S.data"} & facts_) and bool({"Smask._data", "Smask.data"} & facts_)
-        chk.verdict("D4", (tm, st), f"global ordering over `{A.short(e, 40)}`", True if masked else False,
+        MASKD, SPEC = {"Smask._data", "Smask.data"}, {"S._data", "S.data"}
+
+        def attrs(x):
+            return {A.text(y) for y in ast.walk(x) if isinstance(y, ast.Attribute)}
+
+        def is_masked_product(x):
+            return isinstance(x, ast.BinOp) and isinstance(x.op, ast.Mult) and bool(SPEC & attrs(x)) and bool(MASKD & attrs(x))
+        # (i) the ordering is over the masked spectrum ...
+        core = e.left if isinstance(e, ast.BinOp) and isinstance(e.op, ast.Sub) else e
+        chk.verdict("D4", (tm, st), f"global ordering over the masked spectrum (`{A.short(core, 40)}`)", True if is_masked_product(core) else False,
                     "the global stage no longer orders the *masked* spectrum S*mask: values already discarded block-wise compete again")
-        # ... and the count of values above the global tolerance is taken over the same masked spectrum
-    # the global keep-count compares the masked spectrum as well (K = min(D_total, #masked values above tol))
+        # (ii) ... and the entries masked block-wise rank below *every* kept value, also for spectra with negative values (which='SR'/'SM'
+        # hand over -S): as plain zeros they outrank negative values.  Accepted: key = S*mask - not(mask) * L with L > max|S|
+        lowest_ok = False
+        if isinstance(e, ast.BinOp) and isinstance(e.op, ast.Sub) and isinstance(e.right, ast.BinOp) and isinstance(e.right.op, ast.Mult):
+            fl, fr = e.right.left, e.right.right
+            notm, L = (fl, fr) if (MASKD & attrs(fl)) else (fr, fl)
+            is_not = isinstance(notm, ast.Call) and (A.callee_attr(notm) or A.call_name(notm) or "").endswith("bitwise_not") and bool(MASKD & attrs(notm)) or \
+                (isinstance(notm, ast.BinOp) and isinstance(notm.op, ast.Sub) and A.neg_const(notm.left) == 1 and bool(MASKD & attrs(notm.right))) or \
+                (isinstance(notm, ast.UnaryOp) and isinstance(notm.op, ast.Invert) and bool(MASKD & attrs(notm.operand)))
+            # L = a * max_abs(..) + c with a >= 1, c > 0  (so L > max|kept value|)
+            from ..core.poly import from_ast as _fa, Poly as _P, Rat as _R
+            import copy as _copy
+
+            class _M(ast.NodeTransformer):
+                def visit_Call(self, n):
+                    if (A.callee_attr(n) or A.call_name(n) or "").endswith("max_abs"):
+                        return ast.Name(id="M", ctx=ast.Load())
+                    return n
+            try:
+                lp = _fa(_M().visit(_copy.deepcopy(L)), opaque=False)
+                terms = lp.n.t if lp.d.is_const() and lp.d.const_value() == 1 else None
+            except Exception:  # noqa: BLE001
+                terms = None
+            if terms is not None and set(terms) <= {(), (("M", 1),)}:
+                lowest_ok = is_not and terms.get((("M", 1),), 0) >= 1 and terms.get((), 0) > 0
+        chk.verdict("D4", (tm, st), "entries masked block-wise rank below every kept value in the global stage", True if lowest_ok else False,
+                    "truncation_mask: in the global stage the block-masked entries enter the ordering as zeros (S*mask): for a spectrum with negative "
+                    "values (eigh_with_truncation with which='SR'/'SM' hands over -S) they outrank genuine values, which are then discarded instead "
+                    "(with D_block and D_total both binding only a fraction of D_total values survive)")
+    # (iii) block-masked entries do not count as 'above the global tolerance' (0 > tol*max holds for every negative tol)
+    b_ = A.local_bindings(tm.node)
+    cnts = [c for c in A.calls(tm.node) if (A.callee_attr(c) or "") == "sum_elements" and c.args]
+    gl_cnt = [c for c in cnts if not any(isinstance(p_, (ast.For, ast.While)) for p_ in _ancestors(c, A.enclosing_map(tm.node)))]
+    chk.require(gl_cnt, "truncation_mask: global count of values above tolerance not found")
+    from ..core.knob import KnobEval
+    ke_ = KnobEval(tm.node, {})
+    ce = ke_.expand(gl_cnt[0].args[0], A.stmt_of(gl_cnt[0], A.enclosing_map(tm.node)), stop={"S", "Smask"})
+    okc = isinstance(ce, ast.BinOp) and isinstance(ce.op, (ast.Mult, ast.BitAnd)) and bool({"Smask._data", "Smask.data"} & {A.text(y) for y in ast.walk(ce) if isinstance(y, ast.Attribute)}) \
+        and any(isinstance(y, ast.Compare) for y in ast.walk(ce))
+    # the comparison alone is enough when the tolerance is known to be non-negative; the API allows negative tolerances (-inf for SR/SM)
+    chk.verdict("D4", (tm, gl_cnt[0]), f"global count `{A.short(ce, 50)}` excludes block-masked entries", True if okc else False,
+                "truncation_mask: the number of values above the global tolerance counts block-masked entries as well (their value 0 exceeds tol*max "
+                "for every negative tol, the documented setting for which='SR'/'SM'): the keep-count is too large")
     # D5 wrappers
     for name, maskcall in (("svd_with_truncation", "truncation_mask"), ("eigh_with_truncation", "truncation_mask")):
         f = prog.func(LINALG, name)
@@ -409,19 +465,21 @@ def run(chk):
     e10.run_U(chk, ("yastn.tensor.linalg",), floor1=5, floor2=1)
 
 MUTANTS = [
+    ("masked entries as zeros in the global ordering", "yastn/tensor/linalg.py", "    inds = S.config.backend.argsort(temp_data - S.config.backend.bitwise_not(Smask.data) * lowest)\n", "    inds = S.config.backend.argsort(temp_data)\n", "D4"),
+    ("masked entries counted above a negative tolerance", "yastn/tensor/linalg.py", "    above_tol = (temp_data > tol * S.config.backend.max_abs(temp_data)) * Smask.data", "    above_tol = temp_data > tol * S.config.backend.max_abs(temp_data)", "D4"),
     ("keep smallest", "yastn/tensor/linalg.py", "    Smask._data[inds[:-D_total]] = False\n    return Smask", "    Smask._data[inds[:D_total]] = False\n    return Smask", "D1"),
     ("descending with same slice", "yastn/tensor/linalg.py", "            inds = S.config.backend.argsort(S.data[slice(*sl.slcs[0])])",
      "            inds = S.config.backend.argsort(-S.data[slice(*sl.slcs[0])])", "D1"),
     ("min -> max", "yastn/tensor/linalg.py", "        D_bl = min(D_bl, D_tol)", "        D_bl = max(D_bl, D_tol)", "D2"),
-    (">= tolerance", "yastn/tensor/linalg.py", "    above_tol = temp_data > tol * S.config.backend.max_abs(temp_data)", "    above_tol = temp_data >= tol * S.config.backend.max_abs(temp_data)", "D2"),
+    (">= tolerance", "yastn/tensor/linalg.py", "    above_tol = (temp_data > tol * S.config.backend.max_abs(temp_data)) * Smask.data", "    above_tol = (temp_data >= tol * S.config.backend.max_abs(temp_data)) * Smask.data", "D2"),
     ("drop K==0 case", "yastn/tensor/linalg.py", "    if D_total == 0:\n        Smask._data[:] = False\n        return Smask\n", "", "D3"),
     ("multiplets mark smallest", "yastn/tensor/linalg.py", "    Smask._data[inds[:D_trunc]] = True", "    Smask._data[inds[-D_trunc:]] = True", "D1"),
     ("dispatch tests the wrong limit", "yastn/tensor/linalg.py", "    D_null = 0 if isinstance(D_block, dict) else D_block", "    D_null = 0 if isinstance(tol_block, dict) else D_block", "D6"),
     ("global stage on unmasked", "yastn/tensor/linalg.py", "    temp_data = S._data * Smask.data", "    temp_data = S._data", "D4"),
 ]
 BENIGN = [
-    ("descending flipped back", "yastn/tensor/linalg.py", "    inds = S.config.backend.argsort(temp_data)\n",
-     "    inds = S.config.backend.argsort(-temp_data)[::-1]\n"),
+    ("descending flipped back", "yastn/tensor/linalg.py", "    inds = S.config.backend.argsort(temp_data - S.config.backend.bitwise_not(Smask.data) * lowest)\n",
+     "    inds = S.config.backend.argsort(-(temp_data - S.config.backend.bitwise_not(Smask.data) * lowest))[::-1]\n"),
     ("rename K", "yastn/tensor/linalg.py", "        D_bl = min(D_bl, D_tol)\n        if 0 < D_bl < sl.Dp:  # block truncation\n            inds = S.config.backend.argsort(S.data[slice(*sl.slcs[0])])\n            Smask._data[slice(*sl.slcs[0])][inds[:-D_bl]] = False\n        elif D_bl == 0:",
      "        keep = min(D_bl, D_tol)\n        if 0 < keep < sl.Dp:  # block truncation\n            inds = S.config.backend.argsort(S.data[slice(*sl.slcs[0])])\n            Smask._data[slice(*sl.slcs[0])][inds[:-keep]] = False\n        elif keep == 0:"),
 ]
